@@ -202,13 +202,30 @@ def run(rep, tier, seed):
                         before = b"OLD-CONTENT\n" if existed else b""
                         if existed:
                             open(path, "wb").write(before)
-                        writes = [("w%d-%s;" % (k, "x" * (rnd.choice([1, 5000, 9000]) if k == 1 else 3))).encode() for k in range(nwrites)]
+                        # a write is a text, a single byte or an array of bytes (every byte value is a legal content)
+                        writes = []
+                        wsrc = []
+                        for k in range(nwrites):
+                            kind = rnd.choice(["text", "text", "byte", "bytes"])
+                            if kind == "text":
+                                w = ("w%d-%s;" % (k, "x" * (rnd.choice([1, 5000, 9000]) if k == 1 else 3))).encode()
+                                wsrc.append('write(f, "%s");' % w.decode())
+                            elif kind == "byte":
+                                b = rnd.choice([0, 10, 65, 127, 128, 200, 255])
+                                w = bytes([b])
+                                wsrc.append("write(f, byte(%d));" % b)
+                            else:
+                                bs = [rnd.choice([0, 10, 65, 127, 128, 233, 255]) for _ in range(rnd.randint(1, 5))]
+                                w = bytes(bs)
+                                wsrc.append("write(f, [%s]);" % ", ".join("byte(%d)" % b for b in bs))
+                            writes.append(w)
                         src = 'let f = open("%s", "%s");\nif is_error(f) { eprintln("OPEN-ERR"); } else {\n' % (path, mode)
                         if mode != "r":
-                            for w in writes:
-                                src += 'write(f, "%s");\n' % w.decode()
+                            src += "\n".join(wsrc) + "\n"
                             if flush:
-                                src += "flush(f);\n"
+                                # what is in the file right after the flush, seen through a second handle
+                                src += ('flush(f);\nlet g = open("%s");\nlet t = read(g);\nlet mi = 0;\neprint("MID");\n'
+                                        'while mi < len(t) { eprint(" {}", int(t[mi])); mi = mi + 1; }\neprintln("");\n' % path)
                         src += 'eprintln("OPENED");\n}\n'
                         modes.append({"id": "m%d" % n, "mode": mode, "existed": existed, "before": before,
                                       "writes": writes if mode != "r" else [], "flush": flush, "path": path, "src": src})
@@ -224,8 +241,13 @@ def run(rep, tier, seed):
             opened = "err" if "OPEN-ERR" in m["stderr"] else ("ok" if "OPENED" in m["stderr"] else "crash")
             exists = os.path.exists(m["path"])
             after = open(m["path"], "rb").read() if exists else b""
+            mid = [-1]
+            for l in m["stderr"].splitlines():
+                if l.startswith("MID"):
+                    mid = [int(x) for x in l.split()[1:]]
             recs.append({"id": m["id"], "kind": "modes", "mode": m["mode"], "existed": m["existed"], "before": list(m["before"]),
-                         "writes": [list(w) for w in m["writes"]], "opened": opened, "after": list(after), "exists_after": exists})
+                         "writes": [list(w) for w in m["writes"]], "opened": opened, "after": list(after), "exists_after": exists,
+                         "mid": mid})
             metas[m["id"]] = m
         verdicts, tres = core.tlc_validate("FileIOTrace", recs, timeout=2400)
         rep.add_tlc(tres)
